@@ -114,6 +114,9 @@ func (oc *obligCtx) nonNeg(f *Facts, v ssa.Value) bool {
 	if p, ok := stripNumConv(v).(*ssa.Parameter); ok {
 		return oc.paramNonNeg(p, 0)
 	}
+	if bo, ok := stripNumConv(v).(*ssa.BinOp); ok && bo.Op == token.ADD {
+		return oc.nonNeg(f, bo.X) && oc.nonNeg(f, bo.Y)
+	}
 	return false
 }
 
@@ -288,6 +291,23 @@ func (oc *obligCtx) enumerate(fn *ssa.Function, kinds map[string]bool) []Obligat
 				}
 				return
 			}
+			if want("nilerrtype") {
+				name := callName(in)
+				if strings.HasSuffix(name, "ECALRuntimeProvider.NewRuntimeError") || strings.HasSuffix(name, "util.NewRuntimeError") {
+					args := callArgs(x.Common())
+					if len(args) > 1 {
+						t := args[1]
+						desc := "NewRuntimeError:" + exprString(t, 0)
+						if nonNilError(t, fn, 0) {
+							add("nilerrtype", in, desc, true, "the error type is a package-level error value, a fresh error or a forwarded parameter whose call sites are obligations themselves")
+						} else if FactsAt(in).NonNil[accessPath(t)] {
+							add("nilerrtype", in, desc, true, "dominated by a non-nil test of the error type")
+						} else {
+							add("nilerrtype", in, desc, false, "a runtime error is created with an error type that may be nil ("+exprString(t, 0)+"): reading its type (try/except, sinks, String) is a nil dereference")
+						}
+					}
+				}
+			}
 			if want("panicapi") {
 				name := callName(in)
 				if why, ok := panicAPIs[name]; ok {
@@ -335,6 +355,11 @@ func (oc *obligCtx) indexOb(fn *ssa.Function, in ssa.Instruction, X, idx ssa.Val
 		add("index", in, desc, false, fmt.Sprintf("index %d into %s with no dominating proof that its length exceeds %d", k, accessPath(X), k))
 		return
 	}
+	// x[len(x)-k] with len(x) ≥ k by the AST shape
+	if t := termOf(idx); t.isLen() && t.Off < 0 && (t.LenVal == X || t.LenPath == accessPath(X)) && oc.shapeLen(fn, X) >= -t.Off {
+		add("index", in, desc, true, fmt.Sprintf("AST shape: the node has at least %d child(ren)", -t.Off))
+		return
+	}
 	lo := oc.nonNeg(f, idx)
 	hi := f.ltLen(idx, X)
 	if n, isArr := isArrayLike(X.Type()); isArr && !hi {
@@ -358,6 +383,13 @@ func (oc *obligCtx) sliceOb(in ssa.Instruction, x *ssa.Slice, add addFn) {
 	}
 	f := FactsAt(in)
 	desc := accessPath(x.X) + "[" + optExpr(x.Low) + ":" + optExpr(x.High) + "]"
+	// Children[k:] with at least k children by the AST shape
+	if x.High == nil && x.Max == nil {
+		if k, isC := constInt(x.Low); isC && k >= 0 && oc.shapeLen(in.Parent(), x.X) >= k {
+			add("slice", in, desc, true, fmt.Sprintf("AST shape: the node has at least %d child(ren)", k))
+			return
+		}
+	}
 	var fails []string
 	// upper bound
 	if x.High != nil {
@@ -634,6 +666,32 @@ func (oc *obligCtx) ifaceCmpOb(in ssa.Instruction, x *ssa.BinOp, add addFn) {
 			}
 		}
 	}
+	// dominated by a successful comparability test of exactly these two operands
+	f := FactsAt(in)
+	for v := range f.TrueV {
+		call, ok := v.(*ssa.Call)
+		if !ok {
+			continue
+		}
+		cf := call.Call.StaticCallee()
+		if cf == nil || !oc.c.modFuncSet[cf] || len(call.Call.Args) != 2 {
+			continue
+		}
+		a0, a1 := unspill(call.Call.Args[0]), unspill(call.Call.Args[1])
+		if !((a0 == unspill(x.X) && a1 == unspill(x.Y)) || (a0 == unspill(x.Y) && a1 == unspill(x.X))) {
+			continue
+		}
+		tests := false
+		allInstrs(cf, func(ci ssa.Instruction) {
+			if c2, ok := ci.(ssa.CallInstruction); ok && c2.Common().IsInvoke() && c2.Common().Method.Name() == "Comparable" {
+				tests = true
+			}
+		})
+		if tests {
+			add("ifacecmp", in, desc, true, "dominated by a successful comparability test ("+cf.Name()+") of exactly these operands")
+			return
+		}
+	}
 	// interfaces with methods whose module implementations are all comparable
 	for _, v := range []ssa.Value{x.X, x.Y} {
 		it, _ := v.Type().Underlying().(*types.Interface)
@@ -669,6 +727,10 @@ func (oc *obligCtx) mapKeyOb(in ssa.Instruction, m, key ssa.Value, what string, 
 	desc := what + ":" + accessPath(m) + "[" + exprString(key, 0) + "]"
 	if hashable(key, 0) {
 		add("mapkey", in, desc, true, "key is a constant, a comparable concrete type or came out of a map")
+		return
+	}
+	if hashableOnAllPaths(in, key) {
+		add("mapkey", in, desc, true, "on every path here the key is nil or reflect.TypeOf(key).Comparable() was observed true")
 		return
 	}
 	add("mapkey", in, desc, false, "map "+what+" with an interface-typed key whose dynamic type may be unhashable (a list or map as key panics: "+desc+")")
@@ -715,41 +777,15 @@ func hashable(v ssa.Value, d int) bool {
 // shapeLen: minimum number of children of rt.node for the runtime type owning fn, when X is
 // the Children slice of the runtime's own node (AST-shape invariant); -1 if not applicable.
 func (oc *obligCtx) shapeLen(fn *ssa.Function, X ssa.Value) int64 {
-	if oc.prov == nil || oc.grammar == nil {
+	owner := childrenOwner(X)
+	if owner == nil {
 		return -1
 	}
-	p := accessPath(X)
-	if !strings.HasSuffix(p, ".node.Children") {
-		return -1
+	var f *Facts
+	if in, ok := X.(ssa.Instruction); ok {
+		f = FactsAt(in)
 	}
-	// the root must be the receiver of a method of a runtime type
-	root := fn
-	for root.Parent() != nil {
-		root = root.Parent()
-	}
-	recv := root.Signature.Recv()
-	if recv == nil {
-		return -1
-	}
-	rn := namedOf(recv.Type())
-	if rn == nil || !strings.HasPrefix(p, root.Params[0].Name()+".") {
-		return -1
-	}
-	kinds := oc.prov.KindsOf(rn)
-	if len(kinds) == 0 {
-		return -1
-	}
-	min := int64(1 << 30)
-	for _, k := range kinds {
-		sh, ok := nodeShapes[k]
-		if !ok {
-			return -1
-		}
-		if int64(sh.Min) < min {
-			min = int64(sh.Min)
-		}
-	}
-	return min
+	return oc.minChildren(fn, owner, f)
 }
 
 // sortObligations orders by site.
@@ -806,6 +842,8 @@ func (oc *obligCtx) tokenObligations(fn *ssa.Function) []Obligation {
 			ob.Discharged, ob.Why = true, "under a test of the node's kind ("+strings.Join(f.NameIs[np+".Name"], "/")+"), which always carries a token"
 		case oc.ownNodeCarriesToken(fn, np):
 			ob.Discharged, ob.Why = true, "the runtime's own node: every node kind evaluated by this runtime type is instanced from a token"
+		case oc.kindsCarryToken(oc.kindSet(fn, nodeV, f, 0)):
+			ob.Discharged, ob.Why = true, "AST shape: every node kind possible at this position ("+strings.Join(oc.kindSet(fn, nodeV, f, 0), "/")+") is instanced from a token"
 		default:
 			ob.Why = "dereference of " + np + ".Token — a node constructed by the parser (statements, funccall, compaccess, params, guard, else-true) has a nil token"
 		}
@@ -986,4 +1024,237 @@ func (oc *obligCtx) assertByShape(fn *ssa.Function, in ssa.Instruction, cond ssa
 		sites++
 	}
 	return true, fmt.Sprintf("AST shape: at all %d call sites the calling runtime's node kinds have exactly %d children", sites, k)
+}
+
+// kindSet: the node kinds the *ASTNode value v can have (nil = unknown), derived from the
+// runtime's own node (providerMap), child positions (childKinds) and kind tests in the facts.
+func (oc *obligCtx) kindSet(fn *ssa.Function, v ssa.Value, f *Facts, depth int) []string {
+	if oc.prov == nil || depth > 6 {
+		return nil
+	}
+	v = unspill(v)
+	np := accessPath(v)
+	narrow := func(ks []string) []string {
+		if f == nil || ks == nil {
+			return ks
+		}
+		if is := f.NameIs[np+".Name"]; len(is) > 0 {
+			// a successful equality test fixes the kind (switch cases arrive as single equalities)
+			return is
+		}
+		if nots := f.NameNot[np+".Name"]; len(nots) > 0 {
+			var out []string
+			for _, k := range ks {
+				drop := false
+				for _, n := range nots {
+					if n == k {
+						drop = true
+					}
+				}
+				if !drop {
+					out = append(out, k)
+				}
+			}
+			return out
+		}
+		return ks
+	}
+	if f != nil {
+		if is := f.NameIs[np+".Name"]; len(is) > 0 {
+			return is
+		}
+	}
+	// the runtime's own node
+	if strings.HasSuffix(np, ".node") && !strings.Contains(np, "Children") {
+		root := fn
+		for root.Parent() != nil {
+			root = root.Parent()
+		}
+		if recv := root.Signature.Recv(); recv != nil && len(root.Params) > 0 && strings.HasPrefix(np, root.Params[0].Name()+".") {
+			if rn := namedOf(recv.Type()); rn != nil {
+				return narrow(oc.prov.KindsOf(rn))
+			}
+		}
+		return nil
+	}
+	// a child: *(&X.Children[k])
+	ld, ok := v.(*ssa.UnOp)
+	if !ok {
+		return nil
+	}
+	var parent ssa.Value
+	pos := -1
+	switch ia := ld.X.(type) {
+	case *ssa.IndexAddr:
+		sl := ia.X
+		if s2, isSl := sl.(*ssa.Slice); isSl {
+			sl = s2.X // Children[1:] … positions shift: any position
+		} else if k, isC := constInt(ia.Index); isC {
+			pos = int(k)
+		}
+		chl, isLoad := sl.(*ssa.UnOp)
+		if !isLoad {
+			return nil
+		}
+		fa, isFA := chl.X.(*ssa.FieldAddr)
+		if !isFA || fieldName(fa.X.Type(), fa.Field) != "Children" {
+			return nil
+		}
+		parent = fa.X
+	default:
+		return nil
+	}
+	pk := oc.kindSet(fn, parent, FactsAtValue(parent, ld), depth+1)
+	if pk == nil {
+		return nil
+	}
+	set := map[string]bool{}
+	for _, k := range pk {
+		cks := childKinds(k, pos)
+		if cks == nil {
+			return nil
+		}
+		for _, ck := range cks {
+			set[ck] = true
+		}
+	}
+	var out []string
+	for k := range set {
+		out = append(out, k)
+	}
+	sort.Strings(out)
+	return narrow(out)
+}
+
+// FactsAtValue: facts at the instruction using v (falls back to the definition of v).
+func FactsAtValue(v ssa.Value, at ssa.Instruction) *Facts {
+	if at != nil {
+		return FactsAt(at)
+	}
+	if in, ok := v.(ssa.Instruction); ok {
+		return FactsAt(in)
+	}
+	return nil
+}
+
+// minChildren: a lower bound on len(N.Children) for the node value N by the shape table.
+func (oc *obligCtx) minChildren(fn *ssa.Function, node ssa.Value, f *Facts) int64 {
+	ks := oc.kindSet(fn, node, f, 0)
+	if len(ks) == 0 {
+		return -1
+	}
+	min := int64(1 << 30)
+	for _, k := range ks {
+		sh, ok := nodeShapes[k]
+		if !ok {
+			return -1
+		}
+		if int64(sh.Min) < min {
+			min = int64(sh.Min)
+		}
+	}
+	return min
+}
+
+// childrenOwner: if X is <node>.Children, the node value.
+func childrenOwner(X ssa.Value) ssa.Value {
+	ld, ok := X.(*ssa.UnOp)
+	if !ok {
+		return nil
+	}
+	fa, ok := ld.X.(*ssa.FieldAddr)
+	if !ok || fieldName(fa.X.Type(), fa.Field) != "Children" {
+		return nil
+	}
+	return fa.X
+}
+
+// hashableOnAllPaths: in every abstract state reaching `in`, the key is nil or a call
+// reflect.TypeOf(key).Comparable() has been observed true.
+func hashableOnAllPaths(in ssa.Instruction, key ssa.Value) bool {
+	fn := in.Parent()
+	// candidate comparability tests on this key
+	var tests []*ssa.Call
+	allInstrs(fn, func(x ssa.Instruction) {
+		call, ok := x.(*ssa.Call)
+		if !ok || !call.Call.IsInvoke() || call.Call.Method.Name() != "Comparable" {
+			return
+		}
+		tof, ok := call.Call.Value.(*ssa.Call)
+		if !ok || callName(tof) != "reflect.TypeOf" {
+			return
+		}
+		if unspill(stripConv(tof.Call.Args[0])) == unspill(stripConv(key)) || accessPath(tof.Call.Args[0]) == accessPath(key) && isPathLike(key) {
+			tests = append(tests, call)
+		}
+	})
+	if len(tests) == 0 {
+		return false
+	}
+	ok, reached := true, false
+	o := &PathOracle{MaxStates: 40000}
+	o.Visit = func(st *PState, x ssa.Instruction) {
+		if x != in {
+			return
+		}
+		reached = true
+		if st.Get(key, o) == AvNil {
+			return
+		}
+		for _, t := range tests {
+			if st.Get(t, o) == AvNonNil {
+				return
+			}
+		}
+		ok = false
+	}
+	if !ExplorePaths(fn, o) {
+		return false
+	}
+	return ok && reached
+}
+
+// nonNilError: the value is certainly a non-nil error: a package-level error variable, a
+// fresh error (fmt.Errorf, errors.New, a composite), a phi of such, or a parameter of the
+// forwarding constructor (its callers are checked at their own call sites).
+func nonNilError(v ssa.Value, fn *ssa.Function, d int) bool {
+	if d > 6 {
+		return false
+	}
+	v = stripConvKeepIface(unspill(v))
+	switch x := v.(type) {
+	case *ssa.UnOp:
+		if _, ok := x.X.(*ssa.Global); ok {
+			return true
+		}
+		if a, ok := x.X.(*ssa.Alloc); ok {
+			srcs := cellSources(a)
+			if len(srcs) == 0 {
+				return false
+			}
+			for _, s := range srcs {
+				if !nonNilError(s, fn, d+1) {
+					return false
+				}
+			}
+			return true
+		}
+	case *ssa.MakeInterface:
+		return true
+	case *ssa.Call:
+		switch callName(x) {
+		case "fmt.Errorf", "errors.New":
+			return true
+		}
+	case *ssa.Phi:
+		for _, e := range x.Edges {
+			if !nonNilError(e, fn, d+1) {
+				return false
+			}
+		}
+		return true
+	case *ssa.Parameter:
+		return strings.HasSuffix(fn.Name(), "NewRuntimeError")
+	}
+	return false
 }
